@@ -184,7 +184,9 @@ func VerifC17Matrix() {
 	if err != nil {
 		return
 	}
+	before := append([]byte{}, out...)
 	rd, err := c17Read(out, format, rStream)
+	vAssert(bytes.Equal(out, before), "reading a container modified the caller's bytes")
 	anyCorrupt := false
 	for _, t := range c17Toks {
 		anyCorrupt = vOr(anyCorrupt, t.corrupt)
@@ -197,6 +199,12 @@ func VerifC17Matrix() {
 	vReach("read-ok")
 	vAssert(!anyCorrupt, "a container with a corrupt or unverifiable entry was read without error")
 	c17Exact(rd, k, "round trip")
+	// the same bytes can be read again, with either variant
+	rd2, err2 := c17Read(out, format, !rStream)
+	vAssert(err2 == nil, "reading the same container bytes a second time fails")
+	if err2 == nil {
+		c17Exact(rd2, k, "second read")
+	}
 }
 
 // VerifC17BlockCid: a CAR block stored by the caller under an arbitrary CID
@@ -313,4 +321,45 @@ func VerifC17Corrupt() {
 		return
 	}
 	c17Exact(rd, k, "corrupted container that was accepted")
+}
+
+// VerifC17DupCid: hand-assembled CARs in which a section carries token B's
+// bytes under the CID of its sibling A, in every order: the mislabelled
+// section makes the read fail, wherever it stands.
+func VerifC17DupCid() {
+	c17Pads, c17EqualSizes = 1, true
+	c17Setup(3, false)
+	hdr, err := NewWriter().ToCar() // header only
+	if err != nil {
+		vSkip("unreachable: header")
+	}
+	section := func(c []byte, data []byte) []byte {
+		return append(append([]byte{byte(len(c) + len(data))}, c...), data...)
+	}
+	a, b, c := c17Toks[0], c17Toks[1], c17Toks[2]
+	good := map[int][]byte{0: section(a.c.Bytes(), a.data), 1: section(b.c.Bytes(), b.data), 2: section(c.c.Bytes(), c.data)}
+	bad := section(a.c.Bytes(), b.data) // B's bytes under A's CID
+	// layout: the three slots in a chosen order, B's slot either honest or mislabelled
+	orders := [][]int{{0, 1, 2}, {0, 2, 1}, {1, 0, 2}, {1, 2, 0}, {2, 0, 1}, {2, 1, 0}}
+	ord := orders[vChoose("order", 6)]
+	mislabel := vChoose("mislabel", 2) == 1
+	car := append([]byte{}, hdr...)
+	for _, k := range ord {
+		if k == 1 && mislabel {
+			car = append(car, bad...)
+		} else {
+			car = append(car, good[k]...)
+		}
+	}
+	rd, err := FromCar(car)
+	if mislabel {
+		vReach("mislabelled")
+		vAssert(err != nil, "a CAR with a section stored under a CID that does not hash to its data (the CID of a sibling) is read without error")
+		return
+	}
+	vReach("honest")
+	vAssert(err == nil, "an honest hand-assembled CAR is rejected")
+	if err == nil {
+		c17Exact(rd, 3, "hand-assembled CAR")
+	}
 }
